@@ -262,6 +262,8 @@ def apply_action(mod, act, env, lib):
             out = x.map_blocks(fn, dtype=np.int64 if x.dtype == bool else x.dtype)
         out._verif_blockfn = fn
         return out
+    if a == "MapPlain":
+        return X() * 2 if lib == "np" else X().map_blocks(block_double, dtype=X().dtype)
     if a == "BlockFirst":
         x = X()
         if lib == "np":
@@ -402,6 +404,11 @@ def rechunk_spec(act):
 def block_first(block):
     """grid-dependent block function (BlockFirst action): subtract the block's first element"""
     return block - block.ravel()[0] if block.size else block
+
+
+def block_double(block):
+    """grid-independent block function (MapPlain action)"""
+    return block * 2
 
 
 def block_half(block):
@@ -843,6 +850,8 @@ def _worker(args):
     MAPBLOCKS_INFER_META = bool((opts or {}).get("infer_meta"))
     for beh in behs:
         for grids in variants(beh, max_variants, rng):
+            if (opts or {}).get("only_unit_grids") and any(c != 1 for g in grids for ax in g for c in ax):
+                continue
             out.n_programs += 1
             emit = []
             try:
